@@ -386,6 +386,25 @@ def m_hash_new(ctx, args):
     return ("hash0",)
 
 
+@model("std::default::Default::default")
+def m_default(ctx, args):
+    # `Sha3_256::default()` (what a derived `Default` of a hasher-holding struct calls) is the empty hasher, like
+    # `Digest::new()`; integer / bool defaults are zero / false; anything else stays an opaque call
+    try:
+        t = ctx.dest_ty()
+    except Exception:
+        t = None
+    ts = ty_str(t) if t else ""
+    if t is not None and t[0] == "adt" and ("Sha3" in ts or "CoreWrapper" in ts or "sha3::" in str(t)):
+        return ("hash0",)
+    if t is not None and t[0] == "prim":
+        if t[1] == "bool":
+            return ("b", 0)
+        if t[1][0] in "iu" and t[1][1:].replace("size", "").isdigit() or t[1] in ("usize", "isize"):
+            return ("int", 0)
+    return NotImplemented        # crate-local impls are inlined, anything else stays an opaque call
+
+
 def absorb(h, data):
     """Absorbing a piecewise buffer is absorbing its pieces in order (a hash sees one byte stream)."""
     d = data
